@@ -125,6 +125,12 @@ pub enum Kind {
     UpdateBuckets = 42,
     /// `stop_gc_threads_for_forking` / `shutdown` request. a = goal.
     StopRequest = 43,
+    /// `WorkBucket::poll` returned `Steal::Success` (logged right after `BucketPollOk`, by the same
+    /// thread). a = stage, b = number of *additional* packets `steal_batch_and_pop` moved from the
+    /// bucket into the polling worker's local deque (difference of `worker.len()` around the call;
+    /// a lower bound if another worker steals from that deque concurrently). Those packets leave
+    /// the bucket without a `BucketPollOk` and later show up as `WorkerLocalPop` / `WorkerSteal`.
+    BucketPollBatch = 44,
     // ---- page resources ----
     /// `get_new_pages` succeeded (after). a = (space name hash << 32) | pages, b = start address.
     PrGetNewPages = 50,
@@ -233,6 +239,7 @@ pub const KIND_NAMES: &[(u32, &str)] = &[
     (41, "SchedSentinels"),
     (42, "UpdateBuckets"),
     (43, "StopRequest"),
+    (44, "BucketPollBatch"),
     (50, "PrGetNewPages"),
     (51, "PrGetNewPagesFail"),
     (52, "PrReleasePages"),
